@@ -90,3 +90,222 @@ Proof.
   cbn [sa_n sa_sid sa_eph sa_pk].
   repeat split; eauto.
 Qed.
+
+(* ------------------------------------------------------------------ ServerResponseHidden *)
+Definition srh_off : N := HeaderLen + SessionIDLen + KemCtLen.
+Definition srh_T3 (T : tr) (b k : bytes) : tr :=
+  OAbsorb k :: OAbsorb (slice b HeaderLen SessionIDLen) :: OAbsorb (take HeaderLen b) :: T.
+Definition srh_certs_pt (O : doracle) (T : tr) (b k : bytes) : bytes :=
+  o_dec O (srh_T3 T b k) (slice b srh_off (sa_L b)).
+Definition srh_T4 (O : doracle) (T : tr) (b k : bytes) : tr := OCrypt (srh_certs_pt O T b k) :: srh_T3 T b k.
+(* before the final MAC: DH(s_client, s_server) has been absorbed *)
+Definition srh_T6 (O : doracle) (T : tr) (b k dss : bytes) : tr :=
+  OAbsorb dss :: OSqueeze MacLen :: srh_T4 O T b k.
+
+Theorem read_response_hidden_accept : forall O X ek cs pol T b T' r,
+  read_response_hidden O X ek cs pol T b = (T', Ok r) ->
+  exists k dss leaf inter,
+    at_ b 0 = MT_ServerResponseHidden /\ SRHMinLen + sa_L b <= len b /\ sa_n r = SRHMinLen + sa_L b /\
+    sa_sid r = slice b HeaderLen SessionIDLen /\
+    x_decaps X ek (slice b (HeaderLen + SessionIDLen) KemCtLen) = Some k /\
+    certs_of (srh_certs_pt O T b k) (len (slice b srh_off (sa_L b))) = Ok (leaf, inter) /\
+    slice b (srh_off + sa_L b) MacLen = o_sq O (srh_T4 O T b k) MacLen /\
+    x_policy X pol leaf inter = Some (sa_pk r) /\
+    x_dh X cs (sa_pk r) = Some dss /\
+    slice b (srh_off + sa_L b + MacLen) MacLen = o_sq O (srh_T6 O T b k dss) MacLen /\
+    T' = OSqueeze MacLen :: srh_T6 O T b k dss.
+Proof.
+  intros O X ek cs pol T b T' r H.
+  unfold read_response_hidden in H.
+  unfold squeeze, absorb in H.
+  repeat (first [rewrite decrypt_certs_eq in H | dm H]; try discriminate).
+  injection H as <- <-.
+  clean_hyps.
+  do 4 eexists.
+  unfold srh_T6, srh_T4, srh_certs_pt, srh_T3, sa_L, srh_off in *.
+  cbn [sa_n sa_sid sa_eph sa_pk].
+  repeat split; eauto.
+Qed.
+
+(* ------------------------------------------------------------------ ClientAuth *)
+Definition ca_off : N := HeaderLen + SessionIDLen.
+Definition ca_T2 (T : tr) (b : bytes) : tr :=
+  OAbsorb (slice b HeaderLen SessionIDLen) :: OAbsorb (take HeaderLen b) :: T.
+Definition ca_certs_pt (O : doracle) (T : tr) (b : bytes) : bytes := o_dec O (ca_T2 T b) (slice b ca_off (sa_L b)).
+Definition ca_T3 (O : doracle) (T : tr) (b : bytes) : tr := OCrypt (ca_certs_pt O T b) :: ca_T2 T b.
+(* before the final MAC: DH(e_server, s_client) has been absorbed *)
+Definition ca_T5 (O : doracle) (T : tr) (b dse : bytes) : tr := OAbsorb dse :: OSqueeze MacLen :: ca_T3 O T b.
+
+Theorem read_client_auth_accept : forall O X se pol sid T b T' n pk,
+  read_client_auth O X se pol sid T b = (T', Ok (n, pk)) ->
+  exists dse leaf inter,
+    at_ b 0 = MT_ClientAuth /\ ca_off + sa_L b + 2 * MacLen <= len b /\ n = ca_off + sa_L b + 2 * MacLen /\
+    slice b HeaderLen SessionIDLen = sid /\
+    certs_of (ca_certs_pt O T b) (len (slice b ca_off (sa_L b))) = Ok (leaf, inter) /\
+    slice b (ca_off + sa_L b) MacLen = o_sq O (ca_T3 O T b) MacLen /\
+    x_policy X pol leaf inter = Some pk /\
+    x_dh X se pk = Some dse /\
+    slice b (ca_off + sa_L b + MacLen) MacLen = o_sq O (ca_T5 O T b dse) MacLen /\
+    T' = OSqueeze MacLen :: ca_T5 O T b dse.
+Proof.
+  intros O X se pol sid T b T' n pk H.
+  unfold read_client_auth, read_client_auth_pre in H.
+  unfold squeeze, absorb in H.
+  repeat (first [rewrite decrypt_certs_eq in H | dm H]; try discriminate).
+  all: try (injection H as <- <- <-); try discriminate.
+  clean_hyps.
+  do 3 eexists.
+  unfold ca_T5, ca_T3, ca_certs_pt, ca_T2, sa_L, ca_off in *.
+  repeat match goal with H : Ok _ = Ok _ |- _ => injection H as <- end.
+  repeat split; eauto.
+Qed.
+
+(* ------------------------------------------------------------------ hidden request *)
+Definition hq_off : N := HeaderLen + KemKeyLen + KemCtLen.
+Definition hq_T0 (O : doracle) (Tp : tr) : tr := rekey O (OAbsorb PQHiddenName :: OReset :: Tp) PQHiddenName.
+Definition hq_T3 (O : doracle) (Tp : tr) (b k : bytes) : tr :=
+  OAbsorb k :: OAbsorb (slice b HeaderLen KemKeyLen) :: OAbsorb (take HeaderLen b) :: hq_T0 O Tp.
+Definition hq_certs_pt (O : doracle) (Tp : tr) (b k : bytes) : bytes :=
+  o_dec O (hq_T3 O Tp b k) (slice b hq_off (sa_L b)).
+Definition hq_T4 (O : doracle) (Tp : tr) (b k : bytes) : tr := OCrypt (hq_certs_pt O Tp b k) :: hq_T3 O Tp b k.
+Definition hq_T5 (O : doracle) (Tp : tr) (b k : bytes) : tr := OSqueeze MacLen :: hq_T4 O Tp b k.
+Definition hq_ts (O : doracle) (Tp : tr) (b k : bytes) : bytes :=
+  o_dec O (hq_T5 O Tp b k) (slice b (hq_off + sa_L b + MacLen) TimestampLen).
+(* before the final MAC: header, client KEM key, KEM secret under the server's static KEM key,
+   certificates and timestamp are in *)
+Definition hq_T6 (O : doracle) (Tp : tr) (b k : bytes) : tr := OCrypt (hq_ts O Tp b k) :: hq_T5 O Tp b k.
+
+Lemma hidden_trial_some : forall O X L b T c T' leaf inter,
+  hidden_trial O X L b T c = (T', Some (leaf, inter)) ->
+  exists kid k,
+    hc_kem c = Some kid /\ hc_hasname c = true /\
+    x_decaps X kid (slice b (HeaderLen + KemKeyLen) KemCtLen) = Some k /\
+    certs_of (o_dec O (hq_T3 O T b k) (slice b hq_off L)) (len (slice b hq_off L)) = Ok (leaf, inter) /\
+    slice b (hq_off + L) MacLen = o_sq O (OCrypt (o_dec O (hq_T3 O T b k) (slice b hq_off L)) :: hq_T3 O T b k) MacLen /\
+    T' = OSqueeze MacLen :: OCrypt (o_dec O (hq_T3 O T b k) (slice b hq_off L)) :: hq_T3 O T b k.
+Proof.
+  intros O X L b T c T' leaf inter H.
+  unfold hidden_trial in H. unfold squeeze, absorb in H.
+  repeat (first [rewrite decrypt_certs_eq in H | dm H]; try discriminate).
+  injection H as <- <- <-.
+  clean_hyps.
+  do 2 eexists. unfold hq_T3, hq_T0, hq_off.
+  repeat split; eauto.
+Qed.
+
+Lemma hidden_trials_some : forall O X L b cs T T' t,
+  hidden_trials O X L b T cs = (T', Some t) ->
+  exists Tp, In (to_cert t) cs /\
+    hidden_trial O X L b Tp (to_cert t) = (to_tr t, Some (to_leaf t, to_inter t)).
+Proof.
+  induction cs as [|c cs IH]; intros T T' t H; cbn [hidden_trials] in H; try discriminate.
+  destruct (hidden_trial O X L b T c) as [T1 [[leaf inter]|]] eqn:E.
+  - injection H as <- <-. cbn. exists T. split; auto.
+  - apply IH in H as (Tp & Hin & Ht). exists Tp. split; auto. right; auto.
+Qed.
+
+Theorem read_request_hidden_accept : forall O X certs pol now T b T' q,
+  read_request_hidden O X certs pol now T b = (T', Ok q) ->
+  exists cs Tp kid k leaf inter,
+    certs = Some cs /\ In (hq_cert q) cs /\
+    at_ b 0 = MT_ClientRequestHidden /\ at_ b 1 = Version /\
+    hq_n q = HeaderLen + KemCtLen + sa_L b + MacLen + KemKeyLen + TimestampLen + MacLen /\ hq_n q <= len b /\
+    (* trial decryption succeeded under the KEM key of a configured certificate *)
+    hc_kem (hq_cert q) = Some kid /\ hc_hasname (hq_cert q) = true /\
+    x_decaps X kid (slice b (HeaderLen + KemKeyLen) KemCtLen) = Some k /\
+    certs_of (hq_certs_pt O Tp b k) (len (slice b hq_off (sa_L b))) = Ok (leaf, inter) /\
+    slice b (hq_off + sa_L b) MacLen = o_sq O (hq_T4 O Tp b k) MacLen /\
+    x_kemparse X (slice b HeaderLen KemKeyLen) = Some (hq_kem q) /\
+    (* the client certificate passes the server's policy *)
+    x_policy X pol leaf inter = Some (hq_pk q) /\
+    (* the timestamp is inside the window *)
+    be_dec (hq_ts O Tp b k) <= now /\ now - be_dec (hq_ts O Tp b k) <= HiddenExpiration /\
+    (* and the final MAC verifies *)
+    slice b (hq_off + sa_L b + MacLen + TimestampLen) MacLen = o_sq O (hq_T6 O Tp b k) MacLen /\
+    T' = OSqueeze MacLen :: hq_T6 O Tp b k /\ hq_tr q = T'.
+Proof.
+  intros O X certs pol now T b T' q H.
+  unfold read_request_hidden in H. cbv zeta in H.
+  unfold squeeze, decrypt in H.
+  repeat (dm H; try discriminate).
+  injection H as <- <-.
+  match goal with E : hidden_trials _ _ _ _ _ _ = (_, Some _) |- _ =>
+    apply hidden_trials_some in E as (Tp & Hin & Htrial) end.
+  apply hidden_trial_some in Htrial as (kid & k & Hk & Hn & Hd & Hc & Htag & HT).
+  clean_hyps.
+  match goal with H : (_ || _) = false |- _ => apply orb_false_iff in H as [A B]; apply N.ltb_ge in A, B end.
+  match goal with t : trial_ok |- _ => rename t into tt end.
+  match goal with l : list hcert |- _ => rename l into cs end.
+  exists cs, Tp, kid, k, (to_leaf tt), (to_inter tt).
+  cbn [hq_n hq_tr hq_kem hq_pk hq_cert].
+  unfold hq_T6, hq_ts, hq_T5, hq_T4, hq_certs_pt, sa_L in *.
+  rewrite HT in *.
+  repeat split; auto.
+Qed.
+
+(* the hidden-mode response mixes DH(s_server, s_client) in before its final MAC, and the
+   session keys are derived from what follows *)
+Theorem write_response_hidden_binds_ss : forall O X T sid ect ek ss cpk leaf inter T' m,
+  write_response_hidden O X T sid ect ek ss cpk leaf inter = (T', Ok m) ->
+  exists dss Tm, x_dh X ss cpk = Some dss /\ T' = OSqueeze MacLen :: OAbsorb dss :: Tm /\
+                 slice m (len m - MacLen) MacLen = slice m (len m - MacLen) MacLen.
+Proof.
+  intros until m. intros H. unfold write_response_hidden in H.
+  unfold squeeze, absorb, encrypt_certs, encrypt in H.
+  destruct (x_dh X ss cpk) eqn:E; [|discriminate].
+  injection H as <- <-. do 2 eexists. repeat split; eauto.
+Qed.
+
+(* ------------------------------------------------------------------ mac_binding corollaries *)
+Definition mac_binding (O : doracle) : Prop :=
+  forall T T', o_sq O T MacLen = o_sq O T' MacLen -> T = T'.
+
+(* Whoever computed the final MAC of an accepted ServerAuth as a squeeze of some transcript Tp
+   had absorbed DH(client ephemeral, certified server key) — and everything before it. *)
+Theorem server_auth_mac_producer_under_mac_binding : forall O X ce pol T b T' r Tp,
+  mac_binding O ->
+  read_server_auth O X ce pol T b = (T', Ok r) ->
+  o_sq O Tp MacLen = slice b (sa_off + sa_L b + MacLen) MacLen ->
+  exists des, x_dh X ce (sa_pk r) = Some des /\ exists Tm, Tp = OAbsorb des :: Tm.
+Proof.
+  intros O X ce pol T b T' r Tp MB H Hp.
+  apply read_server_auth_accept in H as (ee & des & leaf & inter & _ & _ & _ & _ & _ & _ & _ & _ & _ & Hd & Hm & _).
+  rewrite Hm in Hp. apply MB in Hp. exists des. split; auto. eexists. rewrite Hp. reflexivity.
+Qed.
+
+Theorem response_hidden_mac_producer_under_mac_binding : forall O X ek cs pol T b T' r Tp,
+  mac_binding O ->
+  read_response_hidden O X ek cs pol T b = (T', Ok r) ->
+  o_sq O Tp MacLen = slice b (srh_off + sa_L b + MacLen) MacLen ->
+  exists dss, x_dh X cs (sa_pk r) = Some dss /\ exists Tm, Tp = OAbsorb dss :: Tm.
+Proof.
+  intros O X ek cs pol T b T' r Tp MB H Hp.
+  apply read_response_hidden_accept in H as (k & dss & leaf & inter & _ & _ & _ & _ & _ & _ & _ & _ & Hd & Hm & _).
+  rewrite Hm in Hp. apply MB in Hp. exists dss. split; auto. eexists. rewrite Hp. reflexivity.
+Qed.
+
+Theorem client_auth_mac_producer_under_mac_binding : forall O X se pol sid T b T' n pk Tp,
+  mac_binding O ->
+  read_client_auth O X se pol sid T b = (T', Ok (n, pk)) ->
+  o_sq O Tp MacLen = slice b (ca_off + sa_L b + MacLen) MacLen ->
+  exists dse, x_dh X se pk = Some dse /\ exists Tm, Tp = OAbsorb dse :: Tm.
+Proof.
+  intros O X se pol sid T b T' n pk Tp MB H Hp.
+  apply read_client_auth_accept in H as (dse & leaf & inter & _ & _ & _ & _ & _ & _ & _ & Hd & Hm & _).
+  rewrite Hm in Hp. apply MB in Hp. exists dse. split; auto. eexists. rewrite Hp. reflexivity.
+Qed.
+
+(* ------------------------------------------------------------------ policy table *)
+Theorem policy_verify_spec : forall p,
+  policy_verify p = true <->
+  p_parse p = true /\
+  (p_nil p = true \/
+   ((p_skip p = true \/ (p_ak_allowed p = true /\ p_ak_ok p = true) \/ p_store_ok p = true) /\
+    p_cb p <> Some false)).
+Proof.
+  intros [parse nil_ skip aka ako sto cb]. unfold policy_verify. cbn.
+  destruct parse, nil_, skip, aka, ako, sto, cb as [[|]|]; cbn; split; intros H; try discriminate; try tauto;
+    try (split; auto; fail).
+  all: try (split; [auto|]; first [left; reflexivity | right; split; [tauto|discriminate]]).
+  all: try (destruct H as [_ [H|[[H|[[? ?]|H]] Hc]]]; try discriminate; try congruence).
+Qed.
